@@ -30,6 +30,9 @@ def bind():
         sys.stderr.write(f"HARNESS ERROR: func_adl imported from {f}, expected under {REPO}\n")
         sys.exit(2)
     logging.disable(logging.CRITICAL)
+    import warnings
+
+    warnings.simplefilter("ignore")
     _bound = True
 
 
